@@ -3,6 +3,7 @@
    known findings.  Definitions only. *)
 From Model Require Import Str Sexp Http Template Table Curly DetectRoute Jsr311 Router.
 From Spec Require Import RouteSpec.
+From Coq Require Import Permutation.
 
 Definition is_lit (t : vtok) : bool := match v_tk t with TLit _ => true | _ => false end.
 
@@ -132,6 +133,13 @@ Definition c18_clean (p : str) : bool :=
   | None => false
   end.
 
+(* a literal, non-empty token *)
+Definition lit_tok (t : str) : bool := negb (has_prefix t [lbrace]) && negb (str_eqb t []).
+(* literal non-empty root tokens, pairwise different roots *)
+Definition roots_literal (wss : list service) : bool := forallb (fun w => forallb lit_tok (tokenize (s_root w))) wss.
+Definition roots_distinct (wss : list service) : bool :=
+  pairwise (fun a b => negb (strs_eqb (tokenize (s_root a)) (tokenize (s_root b)))) wss.
+
 (* the two readings of a route's template coincide token by token, and every token is a
    non-empty literal or a plain variable *)
 Definition plain_tok_eqb (a b : vtok) : bool :=
@@ -175,3 +183,71 @@ Definition routed_equiv (a b : routed) : Prop :=
   | RError e, RError e' => rerr_equiv e e'
   | _, _ => False
   end.
+
+(* ---- C03, order independence: the relations the theorems are stated with ---- *)
+Definition svc_perm (w w' : service) : Prop := s_root w = s_root w' /\ Permutation (s_routes w) (s_routes w').
+(* t' is t with its services, and the routes inside each service, registered in another order *)
+Definition tbl_perm (t t' : table) : Prop :=
+  exists l, Forall2 svc_perm (t_services t) l /\ Permutation l (t_services t').
+
+(* the same outcome, up to the order in which the (same) routes of the service are stored
+   and the order of the Allow list *)
+Definition routed_equiv_perm (a b : routed) : Prop :=
+  match a, b with
+  | RInvoke w r ps, RInvoke w' r' ps' => svc_perm w w' /\ r = r' /\ ps = ps'
+  | RError e, RError e' => rerr_equiv e e'
+  | RPanic, RPanic => True
+  | _, _ => False
+  end.
+
+
+Definition detect_equiv (a b : route + rerr) : Prop :=
+  match a, b with
+  | inl r, inl r' => r = r'
+  | inr e, inr e' => rerr_equiv e e'
+  | _, _ => False
+  end.
+
+
+Section Tie.
+Variable O : oracles.
+Definition claims (qts : list str) (w : service) : bool := fst (compute_webservice_score O qts (tokenize (s_root w))).
+Definition score (qts : list str) (w : service) : nat := snd (compute_webservice_score O qts (tokenize (s_root w))).
+
+(* no two different claiming services share the greatest score (the complement is K-C03-1) *)
+Definition no_tie (qts : list str) (wss : list service) : Prop :=
+  forall w1 w2, In w1 wss -> In w2 wss -> claims qts w1 = true -> claims qts w2 = true ->
+                score qts w1 = score qts w2 ->
+                (forall w3, In w3 wss -> claims qts w3 = true -> score qts w3 <= score qts w1) -> w1 = w2.
+
+(* the keys of the dispatcher's order for a root, when it matches *)
+Definition jsr_key (path : str) (root : str) : option (nat * nat * nat) :=
+  let pe := path_expression root in
+  match jsr_match O (pe_toks pe) path with
+  | Some (caps, _) => Some (S (S (List.length caps)), pe_literal pe, pe_vars pe)
+  | None => None
+  end.
+
+(* no two different matching roots have the same keys (they would be answered in registration order) *)
+Definition jsr_no_tie (path : str) (wss : list service) : Prop :=
+  forall w1 w2 k, In w1 wss -> In w2 wss -> jsr_key path (s_root w1) = Some k -> jsr_key path (s_root w2) = Some k ->
+                  s_root w1 = s_root w2.
+
+
+(* the same premises as booleans (evaluated on every generated case) *)
+Definition top_unique (qts : list str) (wss : list service) : bool :=
+  let best := fold_left Nat.max (flat_map (fun w => if claims qts w then [score qts w] else []) wss) 0 in
+  Nat.leb (List.length (filter (fun w => claims qts w && Nat.eqb (score qts w) best) wss)) 1.
+Definition key_eqb (a b : nat * nat * nat) : bool :=
+  Nat.eqb (fst (fst a)) (fst (fst b)) && Nat.eqb (snd (fst a)) (snd (fst b)) && Nat.eqb (snd a) (snd b).
+Definition jsr_keys_unique (path : str) (wss : list service) : bool :=
+  distinct (map s_root wss)
+  && pairwise (fun a b => match jsr_key path (s_root a), jsr_key path (s_root b) with
+                          | Some k1, Some k2 => negb (key_eqb k1 k2)
+                          | _, _ => true
+                          end) wss.
+End Tie.
+
+Definition keys_distinct (t : table) : bool :=
+  forallb (fun w => distinct (map (route_key w) (s_routes w))) (t_services t).
+
